@@ -274,6 +274,11 @@ class Interp:
             return f(*args, **kwargs)
         import re as _re
         from . import sstr as _sstr
+        if f in (_re.search, _re.match, _re.fullmatch) and len(args) == 2 and not kwargs and isinstance(args[0], str) and \
+                (_sstr.has_sstr(args[1:]) or (isinstance(args[1], Sym) and args[1].kind == 'str')):
+            # re.search(pattern, s) is re.compile(pattern).search(s)
+            f = getattr(_re.compile(args[0]), f.__name__)
+            args = args[1:]
         if isinstance(getattr(f, '__self__', None), _re.Pattern) and len(args) == 1 and not kwargs and \
                 isinstance(args[0], Sym) and args[0].kind == 'str' and f.__name__ in ('match', 'fullmatch', 'search') and \
                 f.__self__.flags in (0, 32):
@@ -284,7 +289,10 @@ class Interp:
             if pat == r'stage([0-9]+)' and meth in ('match', 'fullmatch'):
                 return _sstr.stage_regex(args[0], full=(meth == 'fullmatch'))
             if meth == 'search' and '%' in pat:
-                return _sstr.variable_pattern_search(args[0])
+                try:
+                    return _sstr.variable_pattern_search(args[0], pat)
+                except OutsideSubset:
+                    pass           # no class-based answer: the solver decides below
             if meth == 'search' and pat == r'\[(\d+)\]':
                 return _sstr.needs_char_search(args[0], '[')
             if meth in ('match', 'fullmatch', 'search') and len(args) == 1 and not kwargs and f.__self__.flags in (0, 32):
@@ -335,8 +343,29 @@ class Interp:
             d = dotted(v.func)
             if d is not None and d not in self.externs and (LOG_CALL.search(d) or (self.drop and self.drop(d))):
                 self.dropped_calls += 1
+                self._dropped_call_arguments(v, env)
                 return
         self.eval(v, env)
+
+    def _dropped_call_arguments(self, call, env):
+        """A logger call is dropped from the verified text, but python evaluates its ARGUMENTS first: an argument that
+        contains a call may have an effect the program depends on (e.g. list(iterator) exhausts a one-shot iterator).
+        Such arguments are evaluated for their effects; their value, and anything that goes wrong while the engine
+        evaluates them (unsupported formatting, a fork), is ignored -- the message text itself is not modelled."""
+        c = self.ctx
+        for a in list(call.args) + [k.value for k in call.keywords]:
+            if not any(isinstance(n, ast.Call) for n in ast.walk(a)):
+                continue
+            c.no_fork += 1
+            try:
+                self.eval(a, env)
+            except Infeasible:
+                raise
+            except BaseException as err:
+                if isinstance(err, (KeyboardInterrupt, SystemExit, MemoryError)):
+                    raise
+            finally:
+                c.no_fork -= 1
 
     def st_Pass(self, s, env):
         return
@@ -910,6 +939,7 @@ class Interp:
         d = dotted(e.func)
         if d is not None and d not in self.externs and (LOG_CALL.search(d) or (self.drop and self.drop(d))):
             self.dropped_calls += 1
+            self._dropped_call_arguments(e, env)
             return None
         if d in ('cast', 'typing.cast') and len(e.args) == 2 and d not in self.externs:
             return self.eval(e.args[1], env)            # cast(T, x) == x  (DESIGN 3)
